@@ -34,6 +34,7 @@ inductive Err where
   | typeError
   | keyError
   | attributeError
+  | assertionError   -- `assert` in the optimized containers
   | unmodelled       -- the model declines (outside the modelled domain); never produced on `Supported` input
 deriving Repr, DecidableEq, Inhabited
 
@@ -49,9 +50,26 @@ structure Cfg where
   noneAsStr : Bool := false
   /-- `Input.get_fraction_along`: `if self.fraction_along` truthiness (0.0 is taken for "not set"; C19) -/
   fracTruthy : Bool := true
+  /-- parser: group kind by `name.startswith(..)` (repaired) instead of `name.count(..) >= 1` -/
+  prefixNames : Bool := true
+  /-- parser: property tag = everything after `property:` (repaired) instead of `split(":")[1]` -/
+  tagWhole : Bool := true
+  /-- writer: an electrical / continuous projection whose connections name different synapses / components is
+      refused (repaired) instead of being written with the first connection's -/
+  refuseMixed : Bool := true
+  /-- builder: a weight other than 1 in an electrical projection between two populations without instances raises
+      (repaired, as the continuous branch always did) instead of being ignored -/
+  elecRefuseW : Bool := true
+  /-- parser: 4-column location table without column names: `indexZ = 3` (repaired) instead of `indexY = 3` -/
+  loc4Fixed : Bool := true
+  /-- optimized loader: a file without a `network` group loads as a document without networks (repaired by
+      `fixes/C07-parser-builder-reuse.patch`: `if self.optimizedNetwork is not None`) instead of raising AttributeError -/
+  optNoNet : Bool := true
 
 def Cfg.old (r : Rat → Rat) (fracTruthy : Bool := true) : Cfg :=
-  { r := r, unweighted := 0, idCol0 := false, notesAlways := true, noneAsStr := true, fracTruthy := fracTruthy }
+  { r := r, unweighted := 0, idCol0 := false, notesAlways := true, noneAsStr := true, fracTruthy := fracTruthy,
+    prefixNames := false, tagWhole := false, refuseMixed := false, elecRefuseW := false, loc4Fixed := false,
+    optNoNet := false }
 
 /-- a top-level component of the document (cell, synapse, input source, …) -/
 structure Comp where
@@ -332,10 +350,15 @@ def firstConn (p : GProj) : Except Err Conn :=
   | [], [], c :: _ => .ok c
   | [], [], [] => .error .indexError
 
+/-- every connection names the synapse (electrical) / the component pair (continuous) of the first one -/
+def uniformG (cont : Bool) (c0 : Conn) (l : List Conn) : Bool :=
+  l.all (fun c => c.syn = c0.syn && (!cont || c.preComp = c0.preComp))
+
 def encodeGProj (cfg : Cfg) (cont : Bool) (p : GProj) : Except Err Leaf :=
   match firstConn p with
   | .error e => .error e
   | .ok c0 =>
+    if cfg.refuseMixed && !(uniformG cont c0 (p.plain ++ p.insts ++ p.instWs)) then .error .exception else
     let w := !p.instWs.isEmpty
     match mapE (if cont then cRowW cfg else eRowW cfg) p.instWs with
     | .error e => .error e
@@ -461,10 +484,14 @@ def has (name sub : String) : Bool := isInfixB sub.toList name.toList
 inductive Kind where | pop | proj | il | other | ambiguous
 deriving Repr, DecidableEq, Inhabited
 
-/-- which of the three `if g._v_name.count(...)` blocks of `start_group` fire for a group name; names that
-    trigger more than one are outside the model (`ambiguous`) -/
-def kindOf (name : String) : Kind :=
-  match has name "population_", has name "projection_", (has name "inputList_" || has name "input_list_") with
+/-- which of the three name tests of `start_group` fire for a group name (repaired: `startswith`, at most one
+    fires; before: `count(..) >= 1`, names that trigger more than one are declined as `ambiguous`) -/
+def hasP (cfg : Cfg) (name sub : String) : Bool :=
+  if cfg.prefixNames then sub.toList.isPrefixOf name.toList else has name sub
+
+def kindOf (cfg : Cfg) (name : String) : Kind :=
+  match hasP cfg name "population_", hasP cfg name "projection_",
+        (hasP cfg name "inputList_" || hasP cfg name "input_list_") with
   | true, false, false => .pop
   | false, true, false => .proj
   | false, false, true => .il
@@ -486,11 +513,11 @@ def cellOr (row : List Rat) (i : Option Nat) (dflt : Rat) : Except Err Rat :=
   | some k => cell row k
   | none => .ok dflt
 
-/-- required column; a missing one is outside the model (Python would index with -1) -/
+/-- required column; for a missing one the index variable keeps its initial `-1`: Python reads the LAST cell -/
 def cellReq (row : List Rat) (i : Option Nat) : Except Err Rat :=
   match i with
   | some k => cell row k
-  | none => .error .unmodelled
+  | none => cell row (row.length - 1)
 
 /-- `mapE` with the row number -/
 def mapIdxE {α β : Type} (f : Nat → α → Except Err β) : Nat → List α → Except Err (List β)
@@ -503,39 +530,53 @@ def mapIdxE {α β : Type} (f : Nat → α → Except Err β) : Nat → List α 
       | .error e => .error e
       | .ok bs => .ok (b :: bs)
 
-/-- cell of the prototype's first row decides the x/y/z fallback (`len(d[0]) == 3`) -/
-def locIdx (a : Arr) (name : String) (fallback : Nat) : Except Err Nat :=
-  match colIdx a.cols name with
-  | some k => .ok k
-  | none =>
-    match a.rows with
-    | [] => .error .indexError
-    | r0 :: _ => if r0.length = 3 then .ok fallback else .error .unmodelled
+/-- the four index variables of the location branch of `parse_dataset`: the `column_N` attribute when there is one,
+    else the fallback by row width (`len(d[0])`, evaluated as soon as one name is missing: `IndexError` on a table
+    without rows): 3 columns = x y z, 4 columns = id x y z; any other width leaves the initial `-1` (`none`).
+    Before the repair the last fallback assigned `indexY = 3` instead of `indexZ = 3`. -/
+def locIdxs (cfg : Cfg) (a : Arr) : Except Err (Option Nat × Option Nat × Option Nat × Option Nat) :=
+  let cid := colIdx a.cols "id"
+  let cx := colIdx a.cols "x"
+  let cy := colIdx a.cols "y"
+  let cz := colIdx a.cols "z"
+  if cid.isSome && cx.isSome && cy.isSome && cz.isSome then .ok (cid, cx, cy, cz) else
+  match a.rows with
+  | [] => .error .indexError
+  | r0 :: _ =>
+    let n := r0.length
+    let fb := fun (c : Option Nat) (k3 k4 : Option Nat) =>
+      match c with
+      | some k => some k
+      | none => if n = 3 then k3 else if n = 4 then k4 else none
+    let y0 := fb cy (some 1) (some 2)
+    .ok (fb cid none (some 0), fb cx (some 0) (some 1),
+         (if cz.isNone && n = 4 && !cfg.loc4Fixed then some 3 else y0),
+         fb cz (some 2) (if cfg.loc4Fixed then some 3 else none))
 
-def decodeLocRow (iid : Option Nat) (ix iy iz : Nat) (i : Nat) (row : List Rat) : Except Err Inst := do
+def decodeLocRow (iid ix iy iz : Option Nat) (i : Nat) (row : List Rat) : Except Err Inst := do
   let id ← match iid with
     | some k => (cell row k).map trunc
     | none => .ok (i : Int)
-  let x ← cell row ix
-  let y ← cell row iy
-  let z ← cell row iz
+  let x ← cellReq row ix
+  let y ← cellReq row iy
+  let z ← cellReq row iz
   .ok ⟨id, x, y, z⟩
 
-def decodeLocs (a : Arr) : Except Err (List Inst) := do
-  let ix ← locIdx a "x" 0
-  let iy ← locIdx a "y" 1
-  let iz ← locIdx a "z" 2
-  mapIdxE (decodeLocRow (colIdx a.cols "id") ix iy iz) 0 a.rows
+def decodeLocs (cfg : Cfg) (a : Arr) : Except Err (List Inst) :=
+  match locIdxs cfg a with
+  | .error e => .error e
+  | .ok (iid, ix, iy, iz) => mapIdxE (decodeLocRow iid ix iy iz) 0 a.rows
 
 def propPrefix : String := "property:"
 
 /-- `str(fname).split(":")[1]`: the tag is cut at its first colon -/
-def cutTag (tag : String) : String := String.ofList (tag.toList.takeWhile (· ≠ ':'))
+def cutTag (cfg : Cfg) (tag : String) : String :=
+  if cfg.tagWhole then tag else String.ofList (tag.toList.takeWhile (· ≠ ':'))
 
 def propsOf (cfg : Cfg) (a : Attrs) : List (String × String) :=
   a.filterMap (fun kv =>
     if propPrefix.toList.isPrefixOf kv.1.toList then
-      some (cutTag (String.ofList (kv.1.toList.drop propPrefix.length)), (strAttr cfg [kv] kv.1).getD "None")
+      some (cutTag cfg (String.ofList (kv.1.toList.drop propPrefix.length)), (strAttr cfg [kv] kv.1).getD "None")
     else none)
 
 /-- size of a population: rows of the array named like the population if there is one, else the attribute -/
@@ -549,10 +590,10 @@ def popSize (id : String) (g : Leaf) : Except Err Int :=
     | some (.str _) => .error .unmodelled
     | none => .error .attributeError
 
-def popInsts (arrays : List Arr) : Except Err (List Inst) :=
+def popInsts (cfg : Cfg) (arrays : List Arr) : Except Err (List Inst) :=
   match arrays with
   | [] => .ok []
-  | [a] => decodeLocs a
+  | [a] => decodeLocs cfg a
   | _ => .error .unmodelled
 
 /-- `start_group` + `parse_dataset` + `end_group` on a population group; also returns the component object that
@@ -567,7 +608,7 @@ def decodePop (cfg : Cfg) (top : List Comp) (g : Leaf) : Except Err (Pop × Opti
       match popSize id g with
       | .error e => .error e
       | .ok size =>
-        match popInsts g.arrays with
+        match popInsts cfg g.arrays with
         | .error e => .error e
         | .ok insts =>
           .ok (⟨id, comp, some size, if insts.isEmpty then none else some "populationList", insts, propsOf cfg g.attrs⟩,
@@ -629,7 +670,7 @@ def buildProj (id pre post syn : String) (prePop postPop : Pop) (wd : Bool) (row
 /-- electrical / continuous projection: plain connections between two populations without instances,
     otherwise `…Instance` for weight 1 and `…InstanceW` for any other weight.  `cont`: a weight other than 1
     between populations without instances raises. -/
-def buildGProj (cont : Bool) (id pre post syn preComp : String) (prePop postPop : Pop) (rows : List RowD) :
+def buildGProj (cfg : Cfg) (cont : Bool) (id pre post syn preComp : String) (prePop postPop : Pop) (rows : List RowD) :
     Except Err GProj :=
   let instances := !prePop.insts.isEmpty || !postPop.insts.isEmpty
   let mkP := fun (d : RowD) => ({ id := d.id, pre := .plain d.pre, post := .plain d.post,
@@ -639,7 +680,7 @@ def buildGProj (cont : Bool) (id pre post syn preComp : String) (prePop postPop 
                                    preSeg := d.preSeg, postSeg := d.postSeg, preFrac := d.preFrac, postFrac := d.postFrac,
                                    syn := syn, preComp := preComp } : Conn)
   if !instances then
-    if cont && rows.any (fun d => d.weight ≠ 1) then .error .exception
+    if (cont || cfg.elecRefuseW) && rows.any (fun d => d.weight ≠ 1) then .error .exception
     else .ok { id := id, pre := pre, post := post, plain := rows.map mkP }
   else
     .ok { id := id, pre := pre, post := post,
@@ -686,7 +727,7 @@ def chemItem (h : PHdr) (pops : List Pop) (wd : Bool) (rows : List RowD) : Excep
     | .error e => .error e
     | .ok postPop => .ok (.proj (buildProj h.id h.pre h.post h.syn prePop postPop wd rows))
 
-def gItem (cont : Bool) (h : PHdr) (syn preComp : String) (pops : List Pop) (rows : List RowD) : Except Err Item :=
+def gItem (cfg : Cfg) (cont : Bool) (h : PHdr) (syn preComp : String) (pops : List Pop) (rows : List RowD) : Except Err Item :=
   if rows.isEmpty then .ok (if cont then .cproj { id := h.id, pre := h.pre, post := h.post }
                             else .eproj { id := h.id, pre := h.pre, post := h.post }) else
   match findPop pops h.pre with
@@ -695,7 +736,7 @@ def gItem (cont : Bool) (h : PHdr) (syn preComp : String) (pops : List Pop) (row
     match findPop pops h.post with
     | .error e => .error e
     | .ok postPop =>
-      match buildGProj cont h.id h.pre h.post syn preComp prePop postPop rows with
+      match buildGProj cfg cont h.id h.pre h.post syn preComp prePop postPop rows with
       | .error e => .error e
       | .ok p => .ok (if cont then .cproj p else .eproj p)
 
@@ -722,7 +763,7 @@ def decodeProjBody (cfg : Cfg) (top : List Comp) (pops : List Pop) (h : PHdr) (a
         | .error e => .error e
         | .ok it => .ok (it, [synObj, preObj])
       else if h.typ = "electricalProjection" then
-        match gItem false h h.syn "" pops rows with
+        match gItem cfg false h h.syn "" pops rows with
         | .error e => .error e
         | .ok it => .ok (it, [synObj, preObj])
       else if h.typ = "continuousProjection" then
@@ -735,7 +776,7 @@ def decodeProjBody (cfg : Cfg) (top : List Comp) (pops : List Pop) (h : PHdr) (a
         let extra := match preObj with
           | some _ => []
           | none => [some (silentComp h.id)]
-        match gItem true h postId preId pops rows with
+        match gItem cfg true h postId preId pops rows with
         | .error e => .error e
         | .ok it => .ok (it, [synObj, preObj] ++ extra)
       else .error .unmodelled
@@ -805,7 +846,7 @@ def decodeILLeaf (cfg : Cfg) (top : List Comp) (pops : List Pop) (g : Leaf) :
 
 def decodeOther (cfg : Cfg) (top : List Comp) (pops : List Pop) (g : Leaf) :
     Except Err (Item × List (Option Comp)) :=
-  match kindOf g.name with
+  match kindOf cfg g.name with
   | .proj => decodeProjLeaf cfg top pops g
   | .il => decodeILLeaf cfg top pops g
   | .other => .ok (.nothing, [])
@@ -819,13 +860,13 @@ def Item.il? : Item → Option IList | .il l => some l | _ => none
 /-- `parse_group` on the `network` group: population groups first, then the others; second component: the
     objects appended to the document on the way, in order -/
 def decodeNet (cfg : Cfg) (top : List Comp) (g : NetG) : Except Err (Net × List (Option Comp)) := do
-  if g.leaves.any (fun l => kindOf l.name = .ambiguous) then .error .unmodelled else
+  if g.leaves.any (fun l => kindOf cfg l.name = .ambiguous) then .error .unmodelled else
   let id ← match strAttr cfg g.attrs "id" with
     | some s => pure s
     | none => .error .unmodelled
-  let pr ← mapE (decodePop cfg top) (g.leaves.filter (fun l => kindOf l.name = .pop))
+  let pr ← mapE (decodePop cfg top) (g.leaves.filter (fun l => kindOf cfg l.name = .pop))
   let pops := pr.map (·.1)
-  let ir ← mapE (decodeOther cfg top pops) (g.leaves.filter (fun l => kindOf l.name ≠ .pop))
+  let ir ← mapE (decodeOther cfg top pops) (g.leaves.filter (fun l => kindOf cfg l.name ≠ .pop))
   let items := ir.map (·.1)
   .ok ({ id := id, notes := nonEmpty (strAttr cfg g.attrs "notes"),
          temperature := strAttr cfg g.attrs "temperature",
@@ -992,5 +1033,261 @@ def expectNet (r : Rat → Rat) (n : SemNet) : SemNet :=
            ils := n.ils.map (rIL r) }
 
 def expect (r : Rat → Rat) (d : SemDoc) : SemDoc := { d with nets := d.nets.map (expectNet r) }
+
+/-! ## the optimized loader: `NeuroMLHdf5Loader.load(optimized=True)`
+
+`NeuroMLHdf5Parser(None, optimized=True)` builds `NetworkContainer` / `PopulationContainer` / `ProjectionContainer` /
+`InputListContainer` objects whose lists (`InstanceList`, `ConnectionList`, `InputsList`, `hdf5/NetworkContainer.py`)
+keep the table and create one `Instance` / `Connection` / `Input` per row when they are read.  The model reads every
+row at once (an `assert` that fails while reading = `Err.assertionError`).  `popNames = false` is the code before the
+C05 repair: the lists were created without their population names (`"../None/3/???"`). -/
+
+/-- `OptimizedList._get_index_or_add(name, default)` -/
+def optIdx (cols : List (Nat × String)) (name : String) (dflt : Nat) : Nat := (colIdx cols name).getD dflt
+
+/-- `InstanceList.__getitem__` -/
+def optLocRow (cols : List (Nat × String)) (i : Nat) (row : List Rat) : Except Err Inst := do
+  if row.length = 4 then
+    let id ← cell row (optIdx cols "id" 0)
+    if id ≠ (i : Rat) then throw .assertionError
+  let x ← cell row (optIdx cols "x" 1)
+  let y ← cell row (optIdx cols "y" 2)
+  let z ← cell row (optIdx cols "z" 3)
+  .ok ⟨i, x, y, z⟩
+
+/-- `OptimizedList._get_value(i, name, default)` -/
+def optVal (cols : List (Nat × String)) (row : List Rat) (name : String) (dflt : Rat) : Except Err Rat :=
+  cellOr row (colIdx cols name) dflt
+
+/-- `ConnectionList.__getitem__`: always a plain `Connection`; weight and delay columns are not looked at -/
+def optConnRow (pre post : String) (cols : List (Nat × String)) (i : Nat) (row : List Rat) : Except Err Conn := do
+  let id ← match colIdx cols "id" with
+    | some k =>
+      if k > 0 then do
+        let v ← cell row k
+        let c0 ← cell row 0
+        if c0 ≠ (i : Rat) then throw .assertionError
+        pure (trunc v)
+      else pure (i : Int)
+    | none => pure (i : Int)
+  let pc ← cell row (optIdx cols "pre_cell_id" 1)
+  let qc ← cell row (optIdx cols "post_cell_id" 2)
+  let ps ← optVal cols row "pre_segment_id" 0
+  let qs ← optVal cols row "post_segment_id" 0
+  let pf ← optVal cols row "pre_fraction_along" (1/2)
+  let qf ← optVal cols row "post_fraction_along" (1/2)
+  .ok { id := id, pre := .slash pre (trunc pc) "???", post := .slash post (trunc qc) "???",
+        preSeg := trunc ps, postSeg := trunc qs, preFrac := pf, postFrac := qf }
+
+/-- `InputsList.__getitem__`: `assert id == index`; always a plain `Input` with segment and fraction set -/
+def optInpRow (pop : String) (cols : List (Nat × String)) (i : Nat) (row : List Rat) : Except Err Inp := do
+  let id ← cell row (optIdx cols "id" 0)
+  if id ≠ (i : Rat) then throw .assertionError
+  let t ← cell row (optIdx cols "target_cell_id" 1)
+  let sg ← cell row (optIdx cols "segment_id" 1)
+  let fr ← cell row (optIdx cols "fraction_along" 1)
+  .ok { id := i, target := .slash pop (trunc t) "???", seg := some (trunc sg), frac := some fr }
+
+def popName (popNames : Bool) (s : String) : String := if popNames then s else "None"
+
+/-- `_get_node_size` without the `size >= 0` test of `NetworkBuilder`: a stored `None` stays `None` -/
+def popSizeOpt (id : String) (g : Leaf) : Except Err (Option Int) :=
+  match g.arrays.find? (fun a => a.name = id) with
+  | some a => .ok (some (a.rows.length : Int))
+  | none =>
+    match lookupAttr g.attrs "size" with
+    | some (.int n) => .ok (some n)
+    | some .none => .ok none
+    | some (.str _) => .error .unmodelled
+    | none => .error .attributeError
+
+def decodePopOpt (cfg : Cfg) (g : Leaf) : Except Err Pop :=
+  match strAttr cfg g.attrs "id" with
+  | none => .error .unmodelled
+  | some id =>
+    match popSizeOpt id g with
+    | .error e => .error e
+    | .ok size =>
+      match g.arrays with
+      | [] => .ok ⟨id, (strAttr cfg g.attrs "component").getD "None", size, none, [], propsOf cfg g.attrs⟩
+      | [a] =>
+        match mapIdxE (optLocRow a.cols) 0 a.rows with
+        | .error e => .error e
+        | .ok insts => .ok ⟨id, (strAttr cfg g.attrs "component").getD "None", size, none, insts, propsOf cfg g.attrs⟩
+      | _ => .error .unmodelled
+
+def decodeOtherOpt (cfg : Cfg) (popNames : Bool) (g : Leaf) : Except Err Item :=
+  match kindOf cfg g.name with
+  | .proj =>
+    match projHdr cfg g.attrs with
+    | .error e => .error e
+    | .ok h =>
+      if h.typ = "electricalProjection" || h.typ = "continuousProjection" then .error .exception else
+      match g.arrays with
+      | [] => .ok (.proj { id := h.id, pre := h.pre, post := h.post, syn := h.syn })
+      | [a] =>
+        match mapIdxE (optConnRow (popName popNames h.pre) (popName popNames h.post) a.cols) 0 a.rows with
+        | .error e => .error e
+        | .ok cs => .ok (.proj { id := h.id, pre := h.pre, post := h.post, syn := h.syn, conns := cs })
+      | _ => .error .unmodelled
+  | .il =>
+    match strAttr cfg g.attrs "id", strAttr cfg g.attrs "component", strAttr cfg g.attrs "population" with
+    | some id, some comp, some pop =>
+      match g.arrays with
+      | [] => .ok (.il { id := id, comp := comp, pop := pop })
+      | [a] =>
+        match mapIdxE (optInpRow (popName popNames pop) a.cols) 0 a.rows with
+        | .error e => .error e
+        | .ok is => .ok (.il { id := id, comp := comp, pop := pop, inputs := is })
+      | _ => .error .unmodelled
+    | _, _, _ => .error .unmodelled
+  | .other => .ok .nothing
+  | _ => .error .unmodelled
+
+def decodeNetOpt (cfg : Cfg) (popNames : Bool) (g : NetG) : Except Err Net := do
+  if g.leaves.any (fun l => kindOf cfg l.name = .ambiguous) then .error .unmodelled else
+  let id ← match strAttr cfg g.attrs "id" with
+    | some s => pure s
+    | none => .error .unmodelled
+  let pops ← mapE (decodePopOpt cfg) (g.leaves.filter (fun l => kindOf cfg l.name = .pop))
+  let items ← mapE (decodeOtherOpt cfg popNames) (g.leaves.filter (fun l => kindOf cfg l.name ≠ .pop))
+  .ok { id := id, notes := strAttr cfg g.attrs "notes", temperature := strAttr cfg g.attrs "temperature",
+        pops := pops, projs := items.filterMap Item.proj?, ilists := items.filterMap Item.il? }
+
+/-- a file without a `network` group: `parse` now starts with `self.optimizedNetwork = None` and `get_nml_doc` appends
+    the network only when there is one; before the repair `self.optimizedNetwork` was never assigned (AttributeError) -/
+def decodeDocOpt (cfg : Cfg) (popNames : Bool) (h : H5) : Except Err Doc := do
+  let id ← match strAttr cfg h.attrs "id" with
+    | some s => pure s
+    | none => .error .attributeError
+  match h.net with
+  | none =>
+    if cfg.optNoNet then .ok { id := id, notes := strAttr cfg h.attrs "notes", nets := [], top := addAll (h.top.getD []) [] }
+    else .error .attributeError
+  | some g =>
+    let n ← decodeNetOpt cfg popNames g
+    .ok { id := id, notes := strAttr cfg h.attrs "notes", nets := [n], top := addAll (h.top.getD []) [] }
+
+def roundTripOpt (cfg : Cfg) (popNames : Bool) (d : Doc) : Except Err Doc :=
+  match encodeDoc cfg d with
+  | .error e => .error e
+  | .ok h => decodeDocOpt cfg popNames h
+
+/-! ## float32: round to nearest, ties to even, on rationals (subnormals included; no overflow to infinity: the values
+    of the property are far from 3.4e38) — what `numpy.zeros(.., numpy.float32)[i, j] = v` does to a double `v` -/
+
+def pow2 (e : Int) : Rat :=
+  if e ≥ 0 then ((2 ^ e.toNat : Nat) : Rat) else 1 / ((2 ^ (-e).toNat : Nat) : Rat)
+
+def roundHalfEven (q : Rat) : Int :=
+  let f := q.floor
+  let d := q - (f : Rat)
+  if d < 1/2 then f else if d > 1/2 then f + 1 else if f % 2 = 0 then f else f + 1
+
+def f32 (x : Rat) : Rat :=
+  if x = 0 then 0 else
+  let a := if x < 0 then -x else x
+  let e0 : Int := (Nat.log2 a.num.natAbs : Int) - (Nat.log2 a.den : Int)
+  let e := if pow2 e0 ≤ a then (if pow2 (e0 + 1) ≤ a then e0 + 1 else e0) else e0 - 1
+  let e := if e < -126 then -126 else e
+  let ulp := pow2 (e - 23)
+  let v := (roundHalfEven (a / ulp) : Rat) * ulp
+  if x < 0 then -v else v
+
+/-! ## members of the network subtree and what the layout does with each
+
+`Fate.stored`: travels through a group attribute or a table column; `derived`: recomputed on load from stored data;
+`refused`: the writer raises when it is present; `dropped`: written and loaded without an exception, the value is
+gone.  The table is compared with the real code member by member on every run (stream `fate`) and with the list of
+members that `nml.py` declares for these classes (`Gen/Hdf5Layout.lean`, `Props/C05Gen.lean`). -/
+
+inductive Fate where | stored | derived | refused | dropped
+deriving Repr, DecidableEq, Inhabited
+
+def memberFate : List (String × String × Fate) := [
+  ("NeuroMLDocument", "id", .stored), ("NeuroMLDocument", "notes", .stored), ("NeuroMLDocument", "metaid", .dropped),
+  ("NeuroMLDocument", "annotation", .dropped), ("NeuroMLDocument", "networks", .stored),
+  ("Network", "id", .stored), ("Network", "notes", .stored), ("Network", "temperature", .stored),
+  ("Network", "type", .derived), ("Network", "metaid", .dropped), ("Network", "properties", .dropped),
+  ("Network", "annotation", .dropped), ("Network", "neuro_lex_id", .dropped), ("Network", "spaces", .dropped),
+  ("Network", "regions", .dropped), ("Network", "extracellular_properties", .dropped), ("Network", "cell_sets", .dropped),
+  ("Network", "populations", .stored), ("Network", "synaptic_connections", .refused),
+  ("Network", "explicit_inputs", .refused), ("Network", "projections", .stored),
+  ("Network", "electrical_projections", .stored), ("Network", "continuous_projections", .stored),
+  ("Network", "input_lists", .stored),
+  ("Population", "id", .stored), ("Population", "component", .stored), ("Population", "size", .stored),
+  ("Population", "type", .derived), ("Population", "properties", .stored), ("Population", "instances", .stored),
+  ("Population", "metaid", .dropped), ("Population", "notes", .dropped), ("Population", "annotation", .dropped),
+  ("Population", "extracellular_properties", .dropped), ("Population", "neuro_lex_id", .dropped),
+  ("Population", "layout", .dropped),
+  ("Property", "tag", .stored), ("Property", "value", .stored),
+  ("Instance", "id", .derived), ("Instance", "i", .dropped), ("Instance", "j", .dropped), ("Instance", "k", .dropped),
+  ("Instance", "location", .stored),
+  ("Location", "x", .stored), ("Location", "y", .stored), ("Location", "z", .stored),
+  ("Projection", "id", .stored), ("Projection", "presynaptic_population", .stored),
+  ("Projection", "postsynaptic_population", .stored), ("Projection", "synapse", .stored),
+  ("Projection", "connections", .stored), ("Projection", "connection_wds", .stored),
+  ("Connection", "id", .derived), ("Connection", "neuro_lex_id", .dropped), ("Connection", "pre_cell_id", .stored),
+  ("Connection", "pre_segment_id", .stored), ("Connection", "pre_fraction_along", .stored),
+  ("Connection", "post_cell_id", .stored), ("Connection", "post_segment_id", .stored),
+  ("Connection", "post_fraction_along", .stored),
+  ("ConnectionWD", "id", .derived), ("ConnectionWD", "neuro_lex_id", .dropped), ("ConnectionWD", "pre_cell_id", .stored),
+  ("ConnectionWD", "pre_segment_id", .stored), ("ConnectionWD", "pre_fraction_along", .stored),
+  ("ConnectionWD", "post_cell_id", .stored), ("ConnectionWD", "post_segment_id", .stored),
+  ("ConnectionWD", "post_fraction_along", .stored), ("ConnectionWD", "weight", .stored), ("ConnectionWD", "delay", .stored),
+  ("ElectricalProjection", "id", .stored), ("ElectricalProjection", "presynaptic_population", .stored),
+  ("ElectricalProjection", "postsynaptic_population", .stored), ("ElectricalProjection", "electrical_connections", .stored),
+  ("ElectricalProjection", "electrical_connection_instances", .stored),
+  ("ElectricalProjection", "electrical_connection_instance_ws", .stored),
+  ("ContinuousProjection", "id", .stored), ("ContinuousProjection", "presynaptic_population", .stored),
+  ("ContinuousProjection", "postsynaptic_population", .stored), ("ContinuousProjection", "continuous_connections", .stored),
+  ("ContinuousProjection", "continuous_connection_instances", .stored),
+  ("ContinuousProjection", "continuous_connection_instance_ws", .stored),
+  ("InputList", "id", .stored), ("InputList", "populations", .stored), ("InputList", "component", .stored),
+  ("InputList", "input", .stored), ("InputList", "input_ws", .stored),
+  ("Input", "id", .stored), ("Input", "target", .stored), ("Input", "destination", .dropped),
+  ("Input", "segment_id", .stored), ("Input", "fraction_along", .stored),
+  ("InputW", "id", .stored), ("InputW", "target", .stored), ("InputW", "destination", .dropped),
+  ("InputW", "segment_id", .stored), ("InputW", "fraction_along", .stored), ("InputW", "weight", .stored)]
+
+/-- the seven classes of electrical / continuous connections share their members -/
+def gapMembers (cls : String) (third : List (String × Fate)) : List (String × String × Fate) :=
+  ([("id", Fate.stored), ("neuro_lex_id", .dropped), ("pre_cell", .stored), ("pre_segment", .stored),
+    ("pre_fraction_along", .stored), ("post_cell", .stored), ("post_segment", .stored),
+    ("post_fraction_along", .stored)] ++ third).map (fun mf => (cls, mf.1, mf.2))
+
+def memberFateAll : List (String × String × Fate) :=
+  memberFate ++
+  gapMembers "ElectricalConnection" [("synapse", .stored)] ++
+  gapMembers "ElectricalConnectionInstance" [("synapse", .stored)] ++
+  gapMembers "ElectricalConnectionInstanceW" [("synapse", .stored), ("weight", .stored)] ++
+  gapMembers "ContinuousConnection" [("pre_component", .stored), ("post_component", .stored)] ++
+  gapMembers "ContinuousConnectionInstance" [("pre_component", .stored), ("post_component", .stored)] ++
+  gapMembers "ContinuousConnectionInstanceW" [("pre_component", .stored), ("post_component", .stored), ("weight", .stored)]
+
+def fateOf (cls member : String) : Option Fate :=
+  (memberFateAll.find? (fun r => r.1 = cls && r.2.1 = member)).map (·.2.2)
+
+/-- a document together with the members the structural model does not carry: `(class, member)` pairs that are set
+    (to a non-default value) on the document itself / somewhere in its network subtree -/
+structure XDoc where
+  doc : Doc
+  extras : List (String × String) := []
+deriving Repr, DecidableEq, Inhabited
+
+/-- the writer looks at none of them (bug-for-bug: no guard like the one for `synapticConnection`), the loader
+    creates none -/
+def roundTripX (cfg : Cfg) (x : XDoc) : Except Err XDoc :=
+  match roundTrip cfg x.doc with
+  | .error e => .error e
+  | .ok d => .ok { doc := d, extras := [] }
+
+structure XSem where
+  sem : SemDoc
+  extras : List (String × String)
+deriving Repr, DecidableEq, Inhabited
+
+def semX (x : XDoc) : XSem := ⟨sem x.doc, x.extras⟩
+def expectX (r : Rat → Rat) (s : XSem) : XSem := ⟨expect r s.sem, s.extras⟩
 
 end NmlVerif.Hdf5
